@@ -41,20 +41,26 @@ def gen_schedules(wd, NR, NF, rng):
     return path, nr, nf
 
 
-CL = p_mcb.CLAUSES['C01'] | p_mcb.CLAUSES['C02'] | p_approx.C05 | p_approx.C06 | {'threw-on-valid-input'}
+CL = p_mcb.CLAUSES['C01'] | p_mcb.CLAUSES['C02'] | p_approx.C05 | p_approx.C06 | {'threw-on-valid-input', 'conflicting-access-between-tasks'}
 
 
 def strip_stats(trace):
+    """separate the harness bookkeeping (Stats) and the task footprints (ForRegion) from the behaviour trace"""
     stats = []
     keep = []
+    fps = []
     with open(trace) as f:
         for ln in f:
             if '"e":"Stats"' in ln:
                 stats.append(json.loads(ln))
+            elif '"e":"ForRegion"' in ln:
+                fps.append(ln)
             else:
                 keep.append(ln)
     with open(trace, 'w') as f:
         f.writelines(keep)
+    with open(trace + '.fp', 'w') as f:
+        f.writelines(fps)
     return stats
 
 
@@ -72,7 +78,7 @@ def judge(res, v, spec):
 def check_C03(res, tier, seed, replay):
     rng = random.Random(seed)
     res.assumptions += ['vtbb executes each task (leaf body, join) atomically; it reproduces oneTBB\'s reduce semantics (non-stolen right half continues the same body, stolen half starts from the identity and is joined left-to-right) as specified in ParRegion.tla',
-                        'data-race freedom is decided only as far as a conflict shows up as a schedule-dependent result; a commutative unsynchronised update would be missed (DESIGN.md section 6)']
+                        'data-race freedom: (a) conflicts that change results show up as schedule dependence; (b) vtbb records, for every task of every region, which elements of live tbb::concurrent_vectors it touched and which it changed (snapshot diff), and TLC checks that no element written by one task is touched by another (ParFor.tla); shared memory that is not a concurrent_vector (e.g. the SPTree parity update) is not observed']
     wd = vlib.scratch('C03')
     try:
         r = vlib.tlc_ok('ParRegion', 'MC_ParRegion_q.cfg' if tier == 'quick' else 'MC_ParRegion_t.cfg', extra=['-coverage', '1'], timeout=3000)
@@ -102,11 +108,32 @@ def check_C03(res, tier, seed, replay):
             for n in (7, 8):
                 inputs.append((gens.reweight(rng, gens.complete(n), list(range(1, 50))), 1))
         lines = [vlib.graph_line(i, g['n'], g['edges'], den) for i, (g, den) in enumerate(inputs)]
-        extra = ['--sched', sched, '--random', '6' if tier == 'quick' else '25', '--max-regions', '5' if tier == 'quick' else '12', '--seed', str(seed)]
+        extra = ['--footprints', '--sched', sched, '--random', '6' if tier == 'quick' else '25', '--max-regions', '5' if tier == 'quick' else '12', '--seed', str(seed)]
         tr1 = vlib.parallel_record(exe, lines, wd, 'tbb_exact', extra=extra + ['--algos', 'signed_tbb,fvs_tbb,iso_tbb'], timeout=3000)
         st1 = strip_stats(tr1)
         tr2 = vlib.parallel_record(exe, lines, wd, 'tbb_approx', extra=extra + ['--algos', 'approx_signed_tbb,approx_fvs_tbb,approx_iso_tbb', '--ks', '1,2'], timeout=3000)
         st2 = strip_stats(tr2)
+        # data-race clause: footprints of the tasks of every region on the shared concurrent_vectors
+        r = vlib.tlc_ok('ParFor', 'MC_ParFor.cfg', extra=['-coverage', '1'])
+        if r['violated']:
+            raise vlib.HarnessError('MC_ParFor violated')
+        res.add_mc('ParFor.tla: the support-vector update partitions rows k+1..csd-1; no row written by one task is touched by another, for every partition (the deviation First = k is refuted by MC_ParFor_pinned.cfg)', r)
+        fp = os.path.join(wd, 'footprints.ndjson')
+        with open(fp, 'w') as o:
+            for t in (tr1, tr2):
+                o.write(open(t + '.fp').read())
+        nfp = sum(1 for _ in open(fp))
+        multi = 0
+        with open(fp) as f:
+            for ln in f:
+                if ln.count('"lo"') >= 2:
+                    multi += 1
+        vf = vlib.validate_trace('Trace_ParFor', 'Trace_ParFor.cfg', fp, start_event=None)
+        res.add_validation(vf, nfp)
+        res.cov['footprint_regions'] = {'regions': nfp, 'regions_with_2_or_more_tasks': multi}
+        for rj in vf['rejects']:
+            ev0 = json.loads(rj['segment'][0])
+            res.violation({'algo': ev0.get('algo'), 'clauses': rj['clauses'], 'kind': ev0.get('kind'), 'n': ev0.get('n')}, {'trace_segment': rj['segment'][:1], 'spec': 'Trace_ParFor'})
         v1 = vlib.validate_trace('Trace_Mcb', 'Trace_Mcb.cfg', tr1)
         v2 = vlib.validate_trace('Trace_Approx', 'Trace_Approx.cfg', tr2)
         ev1, ev2 = vlib.count_events(tr1), vlib.count_events(tr2)
@@ -137,6 +164,43 @@ def check_C03(res, tier, seed, replay):
         res.add_validation(v3, vlib.count_events(tr3).get('Call', 0))
         res.cov['real_onetbb_calls'] = vlib.count_events(tr3).get('Call', 0)
         judge(res, v3, 'Trace_Mcb')
+        # real oneTBB on graphs large enough for ranges of hundreds of candidates / vertices to be split and stolen (also
+        # with a grain size): the TBB variants must report what the sequential signed variant reports (History.tla)
+        nbig = 6 if tier == 'quick' else 40
+        files = []
+        ncalls = 0
+        biglines = []
+        for f in range(nbig):
+            n = rng.randint(40, 60)
+            g = gens.rand_graph(rng, n, 3 * n, lambda: rng.randint(1, 50))
+            for rep in range(3):
+                biglines.append(vlib.graph_line(f * 10 + rep, g['n'], g['edges'], 1, extra=['fam=%d' % f, 'gid=0']))
+        trs = vlib.parallel_record(exe2, biglines[::3], wd, 'big_seq', extra=['--algos', 'signed', '--types', 'double', '--no-emit', '--call-timeout', '600'], nproc=6)
+        trp = vlib.parallel_record(exe2, biglines, wd, 'big_tbb', extra=['--algos', 'fvs_tbb,iso_tbb,signed_tbb', '--types', 'double', '--no-emit', '--call-timeout', '600'], nproc=2)
+        seg = {}
+        for tr in (trs, trp):
+            cur = None
+            with open(tr) as fh:
+                for ln in fh:
+                    if '"e":"Call"' in ln:
+                        o = json.loads(ln); o['edges'] = []
+                        cur = o['meta']['fam']
+                        seg.setdefault(cur, []).append(json.dumps(o)); ncalls += 1
+                    elif cur is not None:
+                        seg[cur].append(ln.strip())
+        for f in range(nbig):
+            path = os.path.join(wd, 'big%d.ndjson' % f)
+            with open(path, 'w') as o:
+                o.write(json.dumps({'e': 'Def', 'id': 0, 'rel': 'base', 'args': [], 'f': 1, 'n': 0, 'm': 0, 'small': False, 'edges': []}) + '\n')
+                for ln in seg.get(f, []):
+                    o.write(ln + '\n')
+            files.append(path)
+        vh = vlib.validate_trace('Trace_History', 'Trace_History.cfg', None, files=files)
+        res.add_validation(vh, ncalls)
+        res.cov['real_onetbb_large_graph_calls'] = ncalls
+        for rj in vh['rejects']:
+            call = rj['call']
+            res.violation({'algo': call.get('algo'), 'clauses': rj['clauses'], 'meta': call.get('meta'), 'stage': 'large graphs, real oneTBB vs sequential'}, {'trace_segment': rj['segment'][:3], 'spec': 'Trace_History'})
     finally:
         shutil.rmtree(wd, ignore_errors=True)
 
